@@ -20,6 +20,7 @@ STAGES = {
     "diamond": ["src", "pa", "pb", "pc", "save:pa", "save:pc", "load:src"],
     "multi_saved": ["src", "mx", "pz", "save:mx", "save:my", "save:pz", "load:mx"],
     "multi_discard": ["src", "mx", "pz", "save:mx", "save:pz"],
+    "multi_unsaved": ["src", "mx", "pz", "save:pz"],
 }
 
 
